@@ -2324,14 +2324,16 @@ class Parser:
                 example=pattern.example,
                 constraints=pattern.constraints,
                 target=pattern.target,
-                raw_pattern=raw_pattern,
+                # The spelling that is written back escapes its strings again (the tokens hold decoded
+                # values): "a\\n" must not come back as a newline, an inner quote must not end the string.
+                raw_pattern=self._reconstruct_pattern_from_tokens(token_slice, escape_strings=True),
                 tokens=token_slice,
             )
         except HolographicPatternError:
             # Not a valid holographic pattern, fall back to ListValue
             return None
 
-    def _reconstruct_pattern_from_tokens(self, token_slice: list[Token]) -> str:
+    def _reconstruct_pattern_from_tokens(self, token_slice: list[Token], escape_strings: bool = False) -> str:
         """Reconstruct pattern string from tokens for holographic parsing.
 
         Issue #187: Converts token slice back to string for parse_holographic_pattern().
@@ -2341,6 +2343,7 @@ class Parser:
 
         Args:
             token_slice: Token list from LIST_START to LIST_END inclusive
+            escape_strings: Spell string values with their escapes (the form the emitter writes)
 
         Returns:
             Reconstructed pattern string like '["example"∧REQ→§TARGET]'
@@ -2353,7 +2356,10 @@ class Parser:
             elif token.type == TokenType.LIST_END:
                 parts.append("]")
             elif token.type == TokenType.STRING:
-                parts.append(f'"{token.value}"')
+                text = token.value
+                if escape_strings:
+                    text = text.replace("\\", "\\\\").replace('"', '\\"').replace("\n", "\\n").replace("\t", "\\t")
+                parts.append(f'"{text}"')
             elif token.type == TokenType.NUMBER:
                 # Use raw lexeme if available to preserve format (e.g., 1e10)
                 if token.raw is not None:
